@@ -22,5 +22,7 @@ import Rsactor.Ties.spawn_shape
 import Rsactor.Ties.metrics_guard_shape
 import Rsactor.Ties.metrics_placement_shape
 import Rsactor.Ties.feature_sites_shape
+import Rsactor.Ties.macro_options_shape
+import Rsactor.Ties.macro_templates_shape
 import Rsactor.Ties.ask_protocol_shape
 import Rsactor.Ties.ask_join_shape
